@@ -503,6 +503,11 @@ def report_batch(ctx, b, verdicts, tstate, origin_keys):
             s = tstate[rid]
             token_classes = s["classes"]
             for cls in s["classes"]:
+                if cls == "match-arm-comma-after-block":
+                    # the `,` after a block-like match arm is an optional separator trailing the arm (never required by
+                    # the grammar): within the property's "optional trailing separators", counted, not reported
+                    ctx.add("records_with_optional_comma_after_block_arm")
+                    continue
                 report("Tokens", "tokens-changed:" + cls,
                        f"code tokens changed by formatting ({cls}); first difference: input `{s['first']['input']}` output `{s['first']['output']}`")
             if s["residual"] is not None:
